@@ -113,6 +113,10 @@ def check(ctx):
     # per element, the same spelling at definition and use (shared with C09.R4)
     from .c09 import _r4_defs as macro_definitions
     ctx.absorb(lambda sub: macro_definitions(sub, package(sub.tree)), "R8", only=lambda o: "definitions" in o.key and o.outcome != "MISSING")
+    # the binding-energy constants eb_<alias> that the grain rate laws paste are declared for EVERY ice species of the network, not for a
+    # selection of them (shared with C11.R6)
+    from .c11 import _r6 as eb_constants
+    ctx.absorb(eb_constants, "R9", only=lambda o: o.outcome != "MISSING")
 
 
 # ------------------------------------------------------------------ R1
